@@ -7,7 +7,7 @@
    on, and what the repair 661195f of /repo establishes (the theorem is false for the hash of the pinned commit:
    `own_mark_changed_identifier_before`, by computation on a three-node graph with the former task clause).        *)
 From Coq Require Import ZArith NArith List Bool Lia Permutation.
-From XV Require Import core.Value model.Hash model.Edits proofs.Sort_lemmas proofs.Hash_lemmas proofs.Neutral_lemmas proofs.Cyclic_lemmas.
+From XV Require Import core.Value model.Hash model.Edits proofs.Sort_lemmas proofs.Hash_lemmas proofs.Neutral_lemmas proofs.Cyclic_lemmas proofs.Coherence_lemmas.
 Import ListNotations.
 
 Definition with_task (x : node) (t : option nat) : node :=
@@ -246,3 +246,32 @@ Example init_tasks_of_producer_collide :
   /\ (exists d, full_pure (fun b => b) it_classes (it_heap 1) 9 3 = Ok d
                 /\ full_pure (fun b => b) it_classes (it_heap 2) 9 3 = Ok d).                                (* one embedder *)
 Proof. split; [vm_compute; intros E; discriminate E|]. eexists. split; vm_compute; reflexivity. Qed.
+
+(* ---- an output handed on by dep(self.c) where c is already the output of another task (/repo e2f4b5e): the output
+   is a COPY of c marked by the task, appended to the graph; c keeps its mark.  Nothing that existed changes: every
+   identifier of the graph before is the identifier in the extended graph (frame theorem with R = "was there").   *)
+Definition add_output (h : heap) (c t : nat) : heap :=
+  match nth_error h c with
+  | Some x => h ++ [with_task x (Some t)]
+  | None => h
+  end.
+
+Theorem output_copy_keeps_every_identifier H cs h look c t fuel st n :
+  (forall m x, nth_error h m = Some x -> forall k, In k (succs x) -> k < length h) ->
+  n < length h ->
+  hnode H cs h look fuel st n = hnode H cs (add_output h c t) look fuel st n.
+Proof.
+  intros W Ln. unfold add_output. destruct (nth_error h c) as [x|]; [|reflexivity].
+  apply (Coherence_lemmas.hnode_frame H cs h (h ++ [with_task x (Some t)]) look (fun m => m < length h)).
+  - intros m Lm. symmetry. apply nth_error_app1. exact Lm.
+  - intros m y _ E k Hk. exact (W m y E k Hk).
+  - exact Ln.
+Qed.
+
+(* the copy carries the mark of the task and the values of c *)
+Theorem output_copy_is_marked h c t x :
+  nth_error h c = Some x ->
+  nth_error (add_output h c t) (length h) = Some (with_task x (Some t)).
+Proof.
+  intros E. unfold add_output. rewrite E. rewrite nth_error_app2 by apply Nat.le_refl. rewrite Nat.sub_diag. reflexivity.
+Qed.
